@@ -119,6 +119,22 @@ pub fn jobs(tier: Tier) -> Vec<Job> {
             }
         }
     }
+    // blocks larger than 64 / 128 transactions (seeded change C15b packed per-transaction flags
+    // into machine words): the canonical schedule of 1-8 workers, and one deviation on the smallest
+    for n in [65usize, 130] {
+        let c = blocks::large(spec, n);
+        for w in [1usize, 2, 3, 4, 8] {
+            if tier == Tier::Quick && n == 130 && w > 3 {
+                continue;
+            }
+            v.push(pipeline_job("c01-large", &c, &RunCfg::parallel(w), COARSE, 0, false));
+        }
+        v.push(pipeline_job("c01-large", &c, &RunCfg::sequential(), COARSE, 0, false));
+    }
+    if tier == Tier::Thorough {
+        v.push(pipeline_job("c01-large", &blocks::large(spec, 66), &RunCfg::parallel(2), COARSE, 1, true));
+        v.push(pipeline_job("c01-large", &blocks::large(spec, 66), &RunCfg::parallel(3), COARSE, 1, true));
+    }
     // the validation/finality protocol at its own granularity, two deviations deeper
     for c in &deep_blocks(spec) {
         v.push(pipeline_job("c01-depth", c, &RunCfg::parallel(2), FOCUS_VALIDATION, if tier == Tier::Quick { 4 } else { 5 }, true));
